@@ -57,6 +57,7 @@ type detRun struct {
 	flushFiles map[string]map[string]bool
 	sched      []string
 	untied     bool
+	nviol      int
 	dropped    map[string]bool // measurements dropped while operations were in flight (lock-point mode)
 }
 
@@ -158,6 +159,7 @@ func (d *detRun) step(op string) {
 
 // viol reports a violation of the property together with the schedule that led to it.
 func (d *detRun) viol(line int, class, desc string) {
+	d.nviol++
 	from := 0
 	if len(d.sched) > 120 {
 		from = len(d.sched) - 120
